@@ -1,5 +1,6 @@
 //! Family binary (checks are registered here).
 
+mod c03;
 mod c08;
 mod c09;
 mod c10;
@@ -9,5 +10,5 @@ mod c13;
 mod probe;
 
 fn main() {
-    mc::main_dispatch(&[("C08", c08::run, c08::META), ("C09", c09::run, c09::META), ("C10", c10::run, c10::META), ("C11", c11::run, c11::META), ("C12A", c12a::run, c12a::META), ("C13", c13::run, c13::META)]);
+    mc::main_dispatch(&[("C03", c03::run, c03::META), ("C08", c08::run, c08::META), ("C09", c09::run, c09::META), ("C10", c10::run, c10::META), ("C11", c11::run, c11::META), ("C12A", c12a::run, c12a::META), ("C13", c13::run, c13::META)]);
 }
